@@ -20,6 +20,7 @@ ASSUMPTIONS = [
 NSHARDS = {"quick": 64, "thorough": 128}
 BUDGET_S = {"quick": 240, "thorough": 2400}
 EXTRA_BUILDS = {"thorough": ["rel", "asan"]}
+GENERIC_REL = False  # own release stage below
 MIN_HITS = {
     'quick': {"program": 140284, "allbytes": 1280, "random_tokens": 1920, "constructed": 810, "tx_bound": 448, "lib_err": 23346, "lib_ok": 116158, "post_error_state_checked": 23346, "step_vs_run": 139504},
     'thorough': {"program": 1078522, "allbytes": 1536, "random_tokens": 614400, "constructed": 153624, "tx_bound": 76800, "lib_err": 694087, "lib_ok": 314920, "step_vs_run": 1009008},
